@@ -68,6 +68,12 @@ def kv (toks : List String) (k : String) : Option String :=
 def parseNats? (tok : String) : Option (List Nat) :=
   if tok = "-" then some [] else (tok.splitOn ",").mapM (·.toNat?)
 
+def parsePairs? (tok : String) : Option (List (Nat × Nat)) :=
+  if tok = "-" then some [] else (tok.splitOn ",").mapM fun p =>
+    match p.splitOn ":" with
+    | [a, b] => do let a ← a.toNat?; let b ← b.toNat?; pure (a, b)
+    | _ => none
+
 /-- merge deliveries made at the same instant -/
 def mergeDeliv : List Deliv → List Deliv
   | [] => []
@@ -127,7 +133,8 @@ def handle (line : String) : String :=
         start := ← (← kv toks "t0").toNat?,
         port53 := ← b "p53", sniff := ← b "sniff", window := ← (← kv toks "w").toNat?,
         dnsUnpackOk := ← b "unpack", dnsCtl := ← b "ctl", likely := ← b "likely",
-        needMore := ← parseNats? (← kv toks "nm"), rightCW := ← b "rcw", leftCW := ← b "lcw" }
+        needMore := ← parseNats? (← kv toks "nm"),
+        offer := ← parsePairs? (← kv toks "or"), rightCW := ← b "rcw", leftCW := ← b "lcw" }
       let c ← parseScript? (← kv toks "c")
       let u ← parseScript? (← kv toks "u")
       let o := conn cfg c u
